@@ -243,6 +243,29 @@ def check_blank_docstrings(scratch: Path) -> List[Dict[str, Any]]:
     return out
 
 
+TARGETS_SRC = ("a, b = 1, 2\nc = d = 3\n[e, f] = [4, 5]\n(g, (h, i)) = (1, (2, 3))\nk: int = 5\nm = 1\nm += 1\nn = o = p = 0\n*q, r = [1, 2]\n"
+               "s, [t, (u, *v)] = 1, [2, (3, 4)]\n"
+               "class C:\n    'doc'\n    x, y = 1, 2\n    z = w = 3\n    [aa, bb] = [1, 2]\n    (cc, (dd, *ee)) = (1, (2, 3))\n"
+               "    def f(self):\n        'doc'\n        self.ip, self.iq = 1, 2\n        self.ir = self.it = 3\n        [self.iu, (self.iv, *self.iw)] = [1, (2, 3)]\n")
+TARGETS_INSTANCE = {"C.ip", "C.iq", "C.ir", "C.it", "C.iu", "C.iv", "C.iw"}     # bound on instances, documented on purpose
+
+
+def check_assignment_targets(scratch: Path) -> List[Dict[str, Any]]:
+    """Every name an assignment statement binds in a module or class body is documented, whatever the form of the target:
+       tuple, list, nested and starred unpacking, chained targets, annotated and augmented assignments (vs the namespace CPython
+       builds); the instance variables bound through self in the same forms are documented too."""
+    base = scratch / "targets"
+    base.mkdir(parents=True)
+    (base / "targetsmod.py").write_text(TARGETS_SRC)
+    want = _cpython_names(base, "targetsmod")
+    b = P.build_sources(paths=[base / "targetsmod.py"], record_states=False)
+    got = _names(b["system"], "targetsmod")
+    out = _diff("assignment targets", want, {n: d for n, d in got.items() if n not in TARGETS_INSTANCE})
+    for n in sorted(TARGETS_INSTANCE - set(got)):
+        out.append({"object": n, "expected": "documented (instance variable)", "got": None, "what": "assignment targets: missing"})
+    return out
+
+
 def rendered_text(obj: Any) -> str:
     """The text of the docstring as the pages show it (parsed docstring -> stan -> flattened, tags removed)."""
     import re
@@ -277,4 +300,4 @@ def check(scratch: Path) -> List[Dict[str, Any]]:
             shown = rendered_text(o)
             if doc not in shown:
                 out.append({"object": name, "expected": doc, "got": shown[:200], "what": "docstring as rendered"})
-    return out + check_fields(scratch) + check_overload_neighbours(scratch) + check_rebuild_history(scratch) + check_statics(scratch) + check_blank_docstrings(scratch)
+    return out + check_fields(scratch) + check_overload_neighbours(scratch) + check_rebuild_history(scratch) + check_statics(scratch) + check_blank_docstrings(scratch) + check_assignment_targets(scratch)
